@@ -75,9 +75,12 @@ CHECKS = {
     "C07": dict(
         parts=[dict(pkg="table", run="^TestC07$",
                     quick=dict(shards=4, checks=150, timeout=300),
-                    thorough=dict(shards=16, checks=2500, timeout=1800))],
-        rule='cases = histories of 2-15 hands with membership changes plus control operations at drawn moments: CloseTable inside the settled callback (continue delay), Close/Release after the gate was armed, repeated SetUpTableGame while the gate is pending or a hand runs; oracle: life-cycle automaton over every published status, game count +1 and fresh game id per opened hand, no open while unsettled, per-hand fields reset at every engine fence, no open after close/release; non-trivial = >=3 consecutive hands with a membership change or any control operation; distinct = distinct abstract traces',
-        mandatory=dict(quick=['close_in_settled_cb', 'closed_after_gate_armed', 'released_after_gate_armed', 'double_setup', 'setup_while_hand_runs', 'three_hands_with_change']),
+                    thorough=dict(shards=16, checks=2500, timeout=1800)),
+               dict(pkg="table", run="^TestC07Retry$",
+                    quick=dict(shards=4, checks=3, timeout=300),
+                    thorough=dict(shards=16, checks=12, timeout=900))],
+        rule='cases = histories of 2-15 hands with membership changes plus control operations at drawn moments: CloseTable inside the settled callback (continue delay), Close/Release after the gate was armed, repeated SetUpTableGame while the gate is pending or a hand runs; oracle: life-cycle automaton over every published status, game count +1 and fresh game id per opened hand, no open while unsettled, per-hand fields reset at every engine fence, no open after close/release; retry part (c07r): the gate fires while blinds are unset (3 ways), so the first open attempt fails and the engine sleeps 3 s before retrying; a drawn script of 1-3 UpdateBlind calls (valid level / break / unset again) lands inside that window; final break => no hand may open (game count 0, no hand state), final valid => hand 1 opens and is created with exactly that level; cases whose script took more than 2.5 s are dropped, not judged; non-trivial = >=3 consecutive hands with a membership change or any control operation; distinct = distinct abstract traces',
+        mandatory=dict(quick=['close_in_settled_cb', 'closed_after_gate_armed', 'released_after_gate_armed', 'double_setup', 'setup_while_hand_runs', 'three_hands_with_change', 'retry_final_break', 'retry_final_valid']),
         assumptions=ASSUME_COMMON,
     ),
     "C08": dict(
@@ -273,7 +276,7 @@ LEVELS["C15"] = _lv("Wall-clock bracket (no tolerance constant) on every turn de
 LEVELS["C02"] = _lv("Generated layouts and in-hand membership changes against a fixed index->player map observed through stacks, ids and the backend call log.", "DESIGN.md section 3 C02", "stateful property-based testing (rapid) with a relational oracle over published snapshots and the backend call log", "Stacks are drawn so that a swap is visible; identity is observed through ids and stacks only.")
 LEVELS["C05"] = _lv("Generated arrival/bust/re-buy histories against a three-valued eligibility model computed from the published button seats; heads-up<->ring button jumps are accepted either way.", "DESIGN.md section 3 C05", "stateful property-based testing (rapid) with a three-valued reference model", "Bounded wait is checked on histories of at most 25 hands; histories that reach button seats of a recorded C04 finding are excluded (counted).")
 LEVELS["C06"] = _lv("Validity predicates over every opened and settled snapshot of generated default-rule histories; the standard order table is written independently of position.go.", "DESIGN.md section 3 C06", "stateful property-based testing (rapid) with validity predicates", "Histories that reach button seats of a recorded C04 finding are excluded (counted).")
-LEVELS["C07"] = _lv("Life-cycle automaton and numbering/reset/no-open obligations over generated histories with control operations at deterministic moments.", "DESIGN.md section 3 C07", "stateful property-based testing (rapid) with a life-cycle automaton oracle", "Timing of the asynchronous trigger is sampled at deterministic moments plus scheduler noise; unset-blind levels (30 s retry loop) are not generated in the quick tier.")
+LEVELS["C07"] = _lv("Life-cycle automaton and numbering/reset/no-open obligations over generated histories with control operations at deterministic moments.", "DESIGN.md section 3 C07", "stateful property-based testing (rapid) with a life-cycle automaton oracle", "Timing of the asynchronous trigger is sampled at deterministic moments plus scheduler noise; the open retry path is entered through unset blinds with a 1-3 step blind script inside the first 3 s window only (later retries are not scripted).")
 LEVELS["C08"] = _lv("Bounded-progress oracle on generated continuations: the harness issues only the drawn signals and requires pause-iff and the next hand to open and be played out.", "DESIGN.md section 3 C08", "stateful property-based testing (rapid) with pause-iff and bounded-progress oracles", "Liveness is bounded progress on generated histories (3 s beyond the longest armed timer); a refused rotation from the recorded C04 finding is reported as its own known finding.")
 
 LEVELS["C16"] = _lv("Generated concurrent bursts (barrier-released goroutines, several GOMAXPROCS values) with a porcupine linearizability oracle against the sequential seat model for membership, and a backend-call-log oracle for simultaneous game actions.", "DESIGN.md section 3 C16", "randomized concurrent workload generation (rapid) with a linearizability oracle (porcupine) and history oracles", "Schedules are sampled, not enumerated: a violation that needs one particular preemption may never be drawn. The Go race detector is not used as an oracle.")
